@@ -467,18 +467,9 @@ impl Ctx {
 }
 
 fn load_findings(id: &str) -> Vec<Finding> {
-    // The committed list is /verif/known_findings.json; per-property fragments
-    // under /verif/known_findings.d/*.json (same schema) are read as well.
-    let mut files = vec![PathBuf::from(format!("{VERIF_ROOT}/known_findings.json"))];
-    if let Ok(rd) = std::fs::read_dir(format!("{VERIF_ROOT}/known_findings.d")) {
-        let mut extra: Vec<PathBuf> = rd
-            .flatten()
-            .map(|e| e.path())
-            .filter(|p| p.extension().is_some_and(|e| e == "json"))
-            .collect();
-        extra.sort();
-        files.extend(extra);
-    }
+    // The committed list is /verif/known_findings.json (assembled by bin/mkfindings from the
+    // per-property fragments under known_findings.d/). It is only ever read here.
+    let files = vec![PathBuf::from(format!("{VERIF_ROOT}/known_findings.json"))];
     let mut out = Vec::new();
     for path in files {
         let Ok(text) = std::fs::read_to_string(&path) else {
